@@ -102,10 +102,17 @@ func c05RangedLines(tr *Trace, r *Rng, n int) {
 		switch r.Intn(10) {
 		case 0: // reserves as they are after trades: anything, also single-sided
 			prx, pry = rx, ry
-			if r.Chance(30) {
+			switch r.Intn(10) {
+			case 0, 1, 2:
 				prx = sdkmath.ZeroInt()
-			} else if r.Chance(30) {
+			case 3, 4:
 				pry = sdkmath.ZeroInt()
+			case 5: // rx/ry rounds to zero: treated as a single-asset (y) pool
+				prx, pry = sdkmath.NewInt(int64(1+r.Intn(3))), c05Pow10(19+r.Intn(6))
+				tr.Count("ranged:x-over-y-rounds-to-zero")
+			case 6:
+				prx, pry = c05Pow10(19+r.Intn(6)), sdkmath.NewInt(int64(1+r.Intn(3)))
+				tr.Count("ranged:y-over-x-rounds-to-zero")
 			}
 			tr.Count("ranged:raw-reserves")
 		case 1: // created at an end of its range: single-asset pool
@@ -143,6 +150,7 @@ func c05RangedLines(tr *Trace, r *Rng, n int) {
 			case 2:
 				price = maxP
 			}
+			price = c05EdgePrice(tr, r, price, func() sdkmath.LegacyDec { return pool.Price() })
 			for _, fn := range []string{"price", "bo", "su", "bt", "st"} {
 				out := "panic"
 				try(func() {
